@@ -48,6 +48,7 @@ type acct struct {
 }
 
 type block struct {
+	real     bool // executed as one block by the unmodified VMExecutor.Execute
 	cfg      blockCfg
 	accounts []acct
 	txs      []*txn
@@ -248,9 +249,17 @@ func (g *gen) block() *block {
 		{"e", 30, r.Pick(0, 5)},
 	}
 	b.accounts = append(b.accounts, precAccounts()...)
+	if r.Chance(1, 3) {
+		// this block goes through the unmodified VMExecutor.Execute: one origin (the loop sorts by source),
+		// Proposal007 on, enough balance for gasLimit*gasPrice
+		b.real = true
+		b.cfg.p007, b.cfg.cbn = true, true
+		b.accounts[0].balance = realOriginBalance
+	}
 	g.blk = b
 	g.withAuth = r.Chance(1, 2)
 	g.authNonce = 0
+	g.nextID = 1
 	ntx := 1 + r.Intn(4)
 	for i := 0; i < ntx; i++ {
 		b.txs = append(b.txs, g.tx(i))
@@ -280,8 +289,13 @@ func (g *gen) id() int {
 
 func (g *gen) tx(i int) *txn {
 	r := g.r
+	startID := g.nextID
 	for try := 0; ; try++ {
-		g.nextID = 1
+		g.nextID = startID // ids are unique within a block (one dispatcher per host serves all its transactions)
+		saltsBefore := map[int]bool{}
+		for k := range g.blk.salts {
+			saltsBefore[k] = true
+		}
 		t := &txn{hash: 1 + i, origin: "b10", blk: g.blk}
 		if r.Chance(1, 12) {
 			t.hash = 1 // same hash as the first transaction of the block (what GetLogs then returns is part of the tie)
@@ -319,11 +333,22 @@ func (g *gen) tx(i int) *txn {
 				t.body = &frame{end: "stop"}
 			}
 		}
+		if g.blk.real {
+			t.origin, t.hash = "b10", 1+i // distinct hashes (the loop panics on equal ones), one source
+			if !t.create && precN(t.target) != 0 && t.body.end == "oog" {
+				t.body.end = "stop" // a transaction cannot be given less gas than its intrinsic gas
+			}
+		}
 		if t.body.need() <= gasCap {
 			g.st.txs++
 			return t
 		}
 		g.st.regen++
+		for k := range g.blk.salts { // forget CREATE2 init codes of the discarded attempt
+			if !saltsBefore[k] {
+				delete(g.blk.salts, k)
+			}
+		}
 	}
 }
 
